@@ -16,8 +16,11 @@ import (
 	"fmt"
 	"os"
 	"os/exec"
+	"path/filepath"
 	"runtime/pprof"
+	"strconv"
 	"strings"
+	"syscall"
 	"time"
 
 	"github.com/named-data/ndnd/std/object"
@@ -121,6 +124,9 @@ func family(fam string, S int, th bool) []*scenario {
 		}
 	case "sched1":
 		for _, L := range lengths {
+			if scaled && !th && L > 25 && L != 37 && L != 40 && L != 41 && L != 44 && L != 45 {
+				continue // quick: 1..7 segments completely, then 10, 11 and 12 segments (window of 10)
+			}
 			var c []int
 			if L > 1 {
 				c = []int{L / 2}
@@ -156,6 +162,53 @@ func family(fam string, S int, th bool) []*scenario {
 		for _, n := range []int{1, 2, 3, 4, 5, 6} {
 			out = append(out, one("mem", segs(n), nil))
 		}
+	case "reuse", "reuseS": // reuseS: only the scenarios with a scaled-down window (short histories)
+		// one consumer client, consumers one after the other: earlier fetches fail with segment
+		// Interests outstanding (window partly or completely full), the LAST one is an intact object
+		// on a clean network and must complete. State a failed fetch leaves behind in the client
+		// (window slots, streams, round-robin position) is what this family is about. The window is
+		// scaled down through hook VerifSetWindow so that few failures fill it; one scenario keeps
+		// the real window of 10 and fills it with one interrupted 12-segment transfer, one with ten
+		// failed single-Interest fetches.
+		good := pub{Obj: "/b", Ver: 1, L: 2*S + 1}
+		last := con{Obj: "/b", Ver: -1}
+		segsOf := func(obj string, from, to int) []target {
+			var t []target
+			for k := from; k <= to; k++ {
+				t = append(t, target{Obj: obj, Ver: 1, Seg: k})
+			}
+			return t
+		}
+		// both outstanding Interests of a 3-segment object are never answered (window 2 = full)
+		out = append(out, &scenario{Store: "mem", Window: 2, Pubs: []pub{{Obj: "/a", Ver: 1, L: 2*S + 1}, good}, Rems: segsOf("/a", 1, 2),
+			Seq: []con{{Obj: "/a", Ver: -1}, last}})
+		// two failed fetches with one outstanding Interest each
+		out = append(out, &scenario{Store: "mem", Window: 2, Pubs: []pub{{Obj: "/a", Ver: 1, L: S + 1}, {Obj: "/c", Ver: 1, L: S + 1}, good},
+			Rems: append(segsOf("/a", 0, 0), segsOf("/c", 0, 0)...), Seq: []con{{Obj: "/a", Ver: -1}, {Obj: "/c", Ver: -1}, last}})
+		// a missing object (metadata fails), then a 4-segment object losing segments 1..3 (window 3)
+		out = append(out, &scenario{Store: "mem", Window: 3, Pubs: []pub{{Obj: "/a", Ver: 1, L: 3*S + 1}, good}, Rems: segsOf("/a", 1, 3),
+			Seq: []con{{Obj: "/x", Ver: -1}, {Obj: "/a", Ver: -1}, last}})
+		// real window (10): one interrupted transfer of a 12-segment object, window full
+		if fam == "reuse" {
+			out = append(out, &scenario{Store: "mem", Pubs: []pub{{Obj: "/a", Ver: 1, L: 11*S + 1}, good}, Rems: segsOf("/a", 1, 10),
+				Seq: []con{{Obj: "/a", Ver: -1}, last}})
+		}
+		// real window (10): ten failed fetches of small objects
+		if fam == "reuse" {
+			sc := &scenario{Store: "mem", Pubs: []pub{good}}
+			for i := 0; i < 10; i++ {
+				o := fmt.Sprintf("/f%d", i)
+				sc.Pubs = append(sc.Pubs, pub{Obj: o, Ver: 1, L: 1})
+				sc.Rems = append(sc.Rems, target{Obj: o, Ver: 1, Seg: 0})
+				sc.Seq = append(sc.Seq, con{Obj: o, Ver: -1})
+			}
+			sc.Seq = append(sc.Seq, last)
+			out = append(out, sc)
+		}
+		// reuse after success, and a sequential fetch after two concurrent ones (one failing)
+		out = append(out, &scenario{Store: "mem", Window: 2, Pubs: []pub{{Obj: "/a", Ver: 1, L: 3*S + 1}, good}, Seq: []con{{Obj: "/a", Ver: -1}, last, {Obj: "/a", Ver: 1}}})
+		out = append(out, &scenario{Store: "mem", Window: 3, Pubs: []pub{{Obj: "/a", Ver: 1, L: 2*S + 1}, {Obj: "/c", Ver: 1, L: S + 1}, good}, Rems: segsOf("/a", 1, 2),
+			Cons: []con{{Obj: "/a", Ver: -1}, {Obj: "/c", Ver: -1}}, Seq: []con{last}})
 	case "hist":
 		// explored WITHOUT canonical-state de-duplication (Config.NoDedup): hidden state that no
 		// canonical form shows cannot make the search merge away the history that exposes it
@@ -292,15 +345,15 @@ func configs(th bool) []explore.Config {
 
 func allConfigs(th bool) []explore.Config {
 	if object.VerifSegmentSize() >= 100 { // real segment size (child build)
-		c := []explore.Config{cfg("ver", 0), cfg("rem", 0), cfg("perm", -1), cfg("fifo", 0), cfg("sched1", 1), cfg("sched2", 2)}
+		c := []explore.Config{cfg("ver", 0), cfg("rem", 0), cfg("reuse", 0), cfg("perm", -1), cfg("fifo", 0), cfg("sched1", 1), cfg("sched2", 2)}
 		return c
 	}
 	// the k=0 runs come first so that a defect visible on the default schedule is reported with
 	// that (shortest) history
-	c := []explore.Config{cfg("ver", 0), cfg("rem", 0), cfg("dual", 0), cfg("slack", 0),
+	c := []explore.Config{cfg("ver", 0), cfg("rem", 0), cfg("dual", 0), cfg("slack", 0), cfg("reuse", 0), cfg("reuseS", 1),
 		cfg("ver", 1), cfg("rem", 1), cfg("dual", 1), cfg("slack", 1), cfg("perm", -1), cfg("fifo", 0), cfg("sched1", 1), cfg("sched2", 2), histCfg(2)}
 	if th {
-		c = []explore.Config{cfg("ver", 0), cfg("rem", 0), cfg("dual", 0), cfg("slack", 0),
+		c = []explore.Config{cfg("ver", 0), cfg("rem", 0), cfg("dual", 0), cfg("slack", 0), cfg("reuse", 0), cfg("reuseS", 2),
 			cfg("ver", 2), cfg("rem", 2), cfg("dual", 2), cfg("slack", 2), cfg("perm", -1), cfg("tiny", -1), cfg("fifo", 0),
 			cfg("sched1", 1), histCfg(3), cfg("sched3", 3), cfg("sched2", 2)}
 	}
@@ -340,6 +393,7 @@ func main() {
 		return
 	}
 	if _, ok := explore.IsWorker(); !ok {
+		removeStaleTmp()
 		base := tmpBase()
 		defer os.RemoveAll(base)
 		if os.Getenv("C15_CHILD") == "real" {
@@ -418,4 +472,19 @@ func main() {
 			os.RemoveAll(tmpBase())
 		},
 	})
+}
+
+// removeStaleTmp deletes /tmp/verif-c15-<pid> directories whose owning process no longer exists
+// (a run that was killed or aborted with CHECK-ERROR cannot clean up after itself).
+func removeStaleTmp() {
+	dirs, _ := filepath.Glob("/tmp/verif-c15-*")
+	for _, d := range dirs {
+		pid, err := strconv.Atoi(strings.TrimPrefix(d, "/tmp/verif-c15-"))
+		if err != nil || pid <= 0 {
+			continue
+		}
+		if err := syscall.Kill(pid, 0); err == syscall.ESRCH {
+			os.RemoveAll(d)
+		}
+	}
 }
